@@ -8,7 +8,7 @@ VARIABLES i, bad
 BSum(S, f) == FoldSet(LAMBDA k, acc : SAdd(f[k], acc), SZero, S)
 Tol6 == [s |-> 1, m |-> UAdd(UDrop(UMul(SOne.m, K1e6), 3), <<64>>)]       \* 1e-6 people (absolute) + slack
 SeqSet(s) == {s[k] : k \in 1..Len(s)}
-RowOK(e, r) == LET sum == BSum(SeqSet(e.members[r]), [k \in SeqSet(e.members[r]) |-> e.x[k]])
+RowOK(e, r) == LET sum == SSumSeq([j \in 1..Len(e.members[r]) |-> e.x[e.members[r][j]]])      \* (with multiplicity)
                    b == e.b[r]
                IN SLe(SAbs(SSub(SMulInt(sum, b[2]), SFromInt(b[1]))), [s |-> 1, m |-> UMul(Tol6.m, UFromInt(b[2]))])
 InitFailing(e) ==
